@@ -185,7 +185,12 @@ impl AsCborValue for CoseKey {
         if !self.base_iv.is_empty() {
             map.push((BASE_IV.to_cbor_value()?, Value::Bytes(self.base_iv)));
         }
+        // The labels of the populated typed fields are taken: an extra parameter must not repeat
+        // one of them (or another extra parameter).
         let mut seen = BTreeSet::new();
+        for (key, _) in map.iter() {
+            seen.insert(Label::from_cbor_value(key.clone())?);
+        }
         for (label, value) in self.params {
             if seen.contains(&label) {
                 return Err(CoseError::DuplicateMapKey);
